@@ -148,6 +148,10 @@ def run(repo, chk, tier):
     clause_c(repo, chk, res)
     clause_d(repo, chk)
     clause_e(repo, chk, res)
+    # the minimiser's objective (nll_grad) is the function whose value is reported: constraint terms enter once
+    from .c07 import check_constraint_once
+
+    check_constraint_once(repo, chk, ("value", "grad"), rule="G-once")
 
 
 # --------------------------------------------------------------------------- (a)
